@@ -237,21 +237,51 @@ func runStopOrder(p *core.Program, r *core.Report) {
 	if !r.Anchor("STOP-ORDER", "(*eval.pipelineOp).exec", exec != nil) {
 		return
 	}
-	// the per-form function: the closure of exec that calls (*formOp).exec
-	var perForm *ssa.Function
-	for _, anon := range exec.AnonFuncs {
-		core.Instrs(anon, func(ins ssa.Instruction) {
+	// the per-form function: the function - a closure of exec or a method it
+	// starts - that calls (*formOp).exec
+	callsFormExec := func(f *ssa.Function) bool {
+		found := false
+		if f == nil || f.Blocks == nil {
+			return false
+		}
+		core.Instrs(f, func(ins ssa.Instruction) {
 			if c, ok := ins.(ssa.CallInstruction); ok {
 				if callee := c.Common().StaticCallee(); callee != nil && core.IsFunc(callee, pkgEval, "formOp", "exec") {
-					perForm = anon
+					found = true
 				}
 			}
 		})
+		return found
 	}
+	startTarget := func(ins ssa.Instruction) *ssa.Function {
+		c, ok := ins.(ssa.CallInstruction)
+		if !ok {
+			return nil
+		}
+		if cf, ok := closureOf(c.Common().Value); ok {
+			return cf
+		}
+		if callee := c.Common().StaticCallee(); callee != nil && core.PkgPathOf(callee) == pkgEval {
+			return callee
+		}
+		return nil
+	}
+	var perForm *ssa.Function
+	core.Instrs(exec, func(ins ssa.Instruction) {
+		if t := startTarget(ins); t != nil && t != exec && callsFormExec(t) {
+			perForm = t
+		}
+	})
 	if !r.Anchor("STOP-ORDER", "per-form closure of pipelineOp.exec calling formOp.exec", perForm != nil) {
 		return
 	}
 	fk := "(*eval.pipelineOp).exec per-form closure"
+	// the reader-gone signal may be sent by a small helper called from the
+	// per-form function: sigHost is the function that contains the store and
+	// the close, sigSite the instruction of the per-form function at which
+	// they happen (the helper call, or the close itself)
+	sigHost := perForm
+	var sigSite ssa.Instruction
 	var formExec, closeStop ssa.Instruction
 	var storeErr *ssa.Store
 	var dones, closes []ssa.Instruction
@@ -284,7 +314,37 @@ func runStopOrder(p *core.Program, r *core.Report) {
 			}
 		}
 	})
-	if !r.Anchor("STOP-ORDER", "form.exec, close(sendStop), store to *sendError, fop.close and wg.Done in the per-form closure", formExec != nil && closeStop != nil && storeErr != nil && (len(dones) > 0 || deferDone)) {
+	if closeStop == nil && storeErr == nil {
+		// look one level down: a helper of pkg/eval called from here
+		core.Instrs(perForm, func(ins ssa.Instruction) {
+			c, ok := ins.(*ssa.Call)
+			if !ok || sigSite != nil {
+				return
+			}
+			h := c.Call.StaticCallee()
+			if h == nil || core.PkgPathOf(h) != pkgEval || h.Blocks == nil {
+				return
+			}
+			var hs *ssa.Store
+			var hc ssa.Instruction
+			core.Instrs(h, func(x ssa.Instruction) {
+				if cc, ok := x.(ssa.CallInstruction); ok {
+					if b, ok := cc.Common().Value.(*ssa.Builtin); ok && b.Name() == "close" && strings.HasSuffix(portField(cc.Common().Args[0]), ".sendStop") {
+						hc = x
+					}
+				}
+				if st, ok := x.(*ssa.Store); ok && strings.HasSuffix(portField(st.Addr), ".sendError") {
+					hs = st
+				}
+			})
+			if hs != nil && hc != nil {
+				storeErr, closeStop, sigHost, sigSite = hs, hc, h, ins
+			}
+		})
+	} else {
+		sigSite = closeStop
+	}
+	if !r.Anchor("STOP-ORDER", "form.exec, close(sendStop), store to *sendError, fop.close and wg.Done in the per-form closure", formExec != nil && closeStop != nil && storeErr != nil && sigSite != nil && (len(dones) > 0 || deferDone)) {
 		return
 	}
 	// 1. error stored before sendStop is closed
@@ -299,6 +359,16 @@ func runStopOrder(p *core.Program, r *core.Report) {
 	if fa, ok := storeErr.Addr.(*ssa.UnOp); ok {
 		if f2, ok := fa.X.(*ssa.FieldAddr); ok {
 			base := f2.X
+			// in a helper the port is a parameter: look at the argument
+			if prm, isPrm := base.(*ssa.Parameter); isPrm && sigHost != perForm {
+				for i, q := range sigHost.Params {
+					if q == prm {
+						if c, ok := sigSite.(*ssa.Call); ok && i < len(c.Call.Args) {
+							base = c.Call.Args[i]
+						}
+					}
+				}
+			}
 			fromTable := false
 			if ld, ok := base.(*ssa.UnOp); ok {
 				if ia, ok := ld.X.(*ssa.IndexAddr); ok && strings.HasSuffix(exprKey(ia.X), ".ports") {
@@ -320,7 +390,7 @@ func runStopOrder(p *core.Program, r *core.Report) {
 		if !ok {
 			return
 		}
-		if prm, ok := st.Addr.(*ssa.Parameter); !ok || !strings.HasSuffix(prm.Type().String(), "eval.Exception") {
+		if !isExcSlotAddr(st.Addr) {
 			return
 		}
 		racy := false
@@ -412,7 +482,7 @@ func runStopOrder(p *core.Program, r *core.Report) {
 	// 4. reader-gone signalling happens before Done
 	okOrder := true
 	for _, d := range dones {
-		if reach, _ := core.Reaches(d, func(x ssa.Instruction) bool { return x == closeStop }, nil); reach {
+		if reach, _ := core.Reaches(d, func(x ssa.Instruction) bool { return x == sigSite }, nil); reach {
 			okOrder = false
 		}
 	}
@@ -440,10 +510,8 @@ func runStopOrder(p *core.Program, r *core.Report) {
 			waits = append(waits, ins)
 		}
 		if c, ok := ins.(ssa.CallInstruction); ok {
-			if v := c.Common().Value; v != nil {
-				if mc, ok := closureOf(v); ok && mc == perForm {
-					starts = append(starts, ins)
-				}
+			if startTarget(ins) == perForm {
+				starts = append(starts, ins)
 			}
 			if callee := c.Common().StaticCallee(); callee != nil && core.IsFunc(callee, pkgEval, "", "MakePipelineError") {
 				if call, ok := ins.(*ssa.Call); ok {
@@ -520,15 +588,45 @@ func runStopOrder(p *core.Program, r *core.Report) {
 				r.Bad("ALL-EXC", "(*eval.pipelineOp).exec MakePipelineError over one slot per form", p.InsPos(mpe), "the exception slice does not have one slot per form")
 			}
 			// each start passes &excs[i] with i the loop index
-			okSlots := true
-			for _, s := range starts {
-				args := s.(ssa.CallInstruction).Common().Args
-				last := args[len(args)-1]
-				ia, ok := last.(*ssa.IndexAddr)
+			// &excs[i], i the index of the loop over the forms, is what each
+			// form is given: as an argument of the start, or in a field of
+			// the record the start works on
+			okSlots := false
+			core.Instrs(exec, func(x ssa.Instruction) {
+				ia, ok := x.(*ssa.IndexAddr)
 				if !ok || throughCell(ia.X) != arg {
-					okSlots = false
+					return
 				}
-			}
+				given := false
+				for _, ref := range *ia.Referrers() {
+					switch u := ref.(type) {
+					case ssa.CallInstruction:
+						for _, s := range starts {
+							if s == ssa.Instruction(u) {
+								given = true
+							}
+						}
+					case *ssa.Store:
+						if u.Val == ssa.Value(ia) {
+							if fa, ok := u.Addr.(*ssa.FieldAddr); ok && strings.HasSuffix(fa.Type().String(), "**src.elv.sh/pkg/eval.exception") || isExcSlotField(u.Addr) {
+								given = true
+							}
+						}
+					}
+				}
+				if !given {
+					return
+				}
+				_, isLoopIdx := loopIndexOf(ia.Index)
+				if ex, ok := ia.Index.(*ssa.Extract); ok {
+					if _, isNext := ex.Tuple.(*ssa.Next); isNext && ex.Index == 0 {
+						isLoopIdx = true
+					}
+				}
+				if isLoopIdx {
+					okSlots = true
+				}
+			})
 			if okSlots {
 				r.OK("ALL-EXC", "(*eval.pipelineOp).exec each form writes its own slot", p.InsPos(starts[0]), "every start passes &excs[i]")
 			} else {
@@ -540,10 +638,8 @@ func runStopOrder(p *core.Program, r *core.Report) {
 		// the per-form closure stores a non-reader-gone exception into its slot
 		stored := false
 		core.Instrs(perForm, func(ins ssa.Instruction) {
-			if st, ok := ins.(*ssa.Store); ok {
-				if prm, ok := st.Addr.(*ssa.Parameter); ok && strings.HasSuffix(prm.Type().String(), "eval.Exception") {
-					stored = true
-				}
+			if st, ok := ins.(*ssa.Store); ok && isExcSlotAddr(st.Addr) {
+				stored = true
 			}
 		})
 		if stored {
@@ -837,4 +933,28 @@ func loopIndexOf(v ssa.Value) (*ssa.Phi, bool) {
 		}
 	}
 	return nil, false
+}
+
+// isExcSlotAddr: the address of a form's exception slot as seen by the
+// per-form function: a *Exception parameter, or a *Exception loaded from a
+// field of the record the function works on.
+func isExcSlotAddr(addr ssa.Value) bool {
+	if !strings.HasSuffix(addr.Type().String(), "*src.elv.sh/pkg/eval.Exception") {
+		return false
+	}
+	switch x := addr.(type) {
+	case *ssa.Parameter:
+		return true
+	case *ssa.UnOp:
+		_, isField := x.X.(*ssa.FieldAddr)
+		return x.Op == token.MUL && isField
+	}
+	return false
+}
+
+// isExcSlotField: the address of a struct field of type *Exception (where the
+// slot pointer is kept for the per-form function).
+func isExcSlotField(addr ssa.Value) bool {
+	fa, ok := addr.(*ssa.FieldAddr)
+	return ok && strings.HasSuffix(fa.Type().String(), "**src.elv.sh/pkg/eval.Exception")
 }
